@@ -14,6 +14,13 @@ the idiom - reads the same construct:
 * `match subject:` over literal / `|` / wildcard / capture / fixed-length sequence patterns is lowered to the if / elif
   chain it abbreviates (the CFG and the kind engine know `if`, not `match`); other pattern kinds are left alone.
 
+* `try: x = T[k]` / `except KeyError: A` / `else: B` (the body being that single dict lookup) becomes `if k not in T: A` /
+  `else: x = T[k]; B`: the tables are plain dicts, so the lookup raises exactly when the key is absent.
+
+* `for a, b in ((x1, y1), (x2, y2)): body` over a literal display of a few rows is unrolled (body once per row, the row's
+  pure expressions substituted), and the operator-module getters are written out: `TABLE[<const>]` for a frozen module-level
+  dict display, `attrgetter("a")(x)` -> `x.a`, `itemgetter(k)(x)` -> `x[k]`, `methodcaller("m", ...)(x)` -> `x.m(...)`.
+
 The rewrites preserve the meaning of the function; positions of the moved nodes are kept, so reports still point at the
 original lines."""
 from __future__ import annotations
@@ -297,6 +304,27 @@ def _lower_match(fn) -> int:
                 return None, ([(pat.name, subj())] if pat.name else [])
             c, b = cond_and_binds(pat.pattern, subj)
             return c, b + ([(pat.name, subj())] if pat.name else [])
+        if isinstance(pat, ast.MatchClass) and isinstance(pat.cls, ast.Name) and pat.cls.id in ("str", "int", "float", "bool", "tuple", "list", "dict", "set", "frozenset", "bytes") and not pat.kwd_attrs and len(pat.patterns) <= 1:
+            # `str()` / `int()` / `str("all")` / `str() as name`: an isinstance test (plus the literal, if any)
+            c = ast.Call(func=ast.Name(id="isinstance", ctx=ast.Load()), args=[subj(), ast.Name(id=pat.cls.id, ctx=ast.Load())], keywords=[])
+            binds = []
+            if pat.patterns:
+                c2, binds = cond_and_binds(pat.patterns[0], subj)
+                if c2 is not None:
+                    c = ast.BoolOp(op=ast.And(), values=[c, c2])
+            return c, binds
+        if isinstance(pat, ast.MatchSequence) and not any(isinstance(p_, ast.MatchStar) for p_ in pat.patterns) and isinstance(getattr(subj, "display", None), ast.Tuple) and len(subj.display.elts) == len(pat.patterns):
+            # `match (order, size): case (None, _):` - the subject is a tuple display: component by component, no length test
+            import copy as _cp
+
+            conds, binds = [], []
+            for elt, p_ in zip(subj.display.elts, pat.patterns):
+                sub = lambda elt=elt: _cp.deepcopy(elt)
+                c, b = cond_and_binds(p_, sub)
+                if c is not None:
+                    conds.append(c)
+                binds += b
+            return (None if not conds else conds[0] if len(conds) == 1 else ast.BoolOp(op=ast.And(), values=conds)), binds
         if isinstance(pat, ast.MatchSequence) and not any(isinstance(p_, ast.MatchStar) for p_ in pat.patterns):
             n = len(pat.patterns)
             conds = [ast.Compare(left=ast.Call(func=ast.Name(id="len", ctx=ast.Load()), args=[subj()], keywords=[]), ops=[ast.Eq()], comparators=[ast.Constant(value=n)])]
@@ -316,7 +344,8 @@ def _lower_match(fn) -> int:
             st = blk[i]
             if isinstance(st, Match):
                 pre = []
-                if isinstance(st.subject, (ast.Name, ast.Attribute, ast.Constant)) or (isinstance(st.subject, ast.Subscript) and isinstance(st.subject.value, ast.Name)):
+                pure_tuple = isinstance(st.subject, ast.Tuple) and all(isinstance(e_, (ast.Name, ast.Constant, ast.Attribute)) for e_ in st.subject.elts)
+                if isinstance(st.subject, (ast.Name, ast.Attribute, ast.Constant)) or (isinstance(st.subject, ast.Subscript) and isinstance(st.subject.value, ast.Name)) or pure_tuple:
                     subj_expr = st.subject
                 else:
                     tmp = f"match_subject_{st.lineno}"
@@ -325,6 +354,7 @@ def _lower_match(fn) -> int:
                 import copy as _copy
 
                 subj = lambda: _copy.deepcopy(subj_expr)
+                subj.display = subj_expr if pure_tuple else None
                 try:
                     arms = []
                     for case in st.cases:
@@ -351,12 +381,187 @@ def _lower_match(fn) -> int:
     return done
 
 
+def _lbyl(fn) -> int:
+    """`try: x = T[k]` / `except KeyError: A` / `else: B`  ->  `if k not in T: A` / `else: x = T[k]; B` (the look-before-you-leap
+    spelling the path rules know; T is a plain dict, so the lookup raises KeyError exactly when the key is absent).  Only
+    when the try body is that single lookup, with one KeyError handler that does not bind the exception, and no finally."""
+    done = 0
+    for blk in _blocks(fn):
+        i = 0
+        while i < len(blk):
+            st = blk[i]
+            if isinstance(st, ast.Try) and not st.finalbody and len(st.body) == 1 and len(st.handlers) == 1:
+                h = st.handlers[0]
+                b = st.body[0]
+                look = b.value if isinstance(b, (ast.Assign, ast.Expr)) else None
+                ok = isinstance(h.type, ast.Name) and h.type.id == "KeyError" and h.name is None and isinstance(look, ast.Subscript) and isinstance(look.value, (ast.Name, ast.Attribute)) and not isinstance(look.slice, ast.Slice)
+                if ok and isinstance(b, ast.Assign):
+                    ok = len(b.targets) == 1 and isinstance(b.targets[0], ast.Name)
+                # the key must be a side-effect free expression (it is evaluated twice after the rewrite)
+                if ok and any(isinstance(x, (ast.Call, ast.NamedExpr, ast.Yield, ast.Await)) for x in ast.walk(look.slice)):
+                    ok = False
+                if ok:
+                    import copy as _copy
+
+                    test = ast.Compare(left=_copy.deepcopy(look.slice), ops=[ast.NotIn()], comparators=[_copy.deepcopy(look.value)])
+                    new_if = ast.copy_location(ast.If(test=ast.copy_location(test, look), body=list(h.body), orelse=[b] + list(st.orelse)), st)
+                    blk[i] = new_if
+                    done += 1
+            i += 1
+    return done
+
+
+def _is_pure_row_expr(e) -> bool:
+    for x in ast.walk(e):
+        if isinstance(x, ast.Call):
+            if not (isinstance(x.func, ast.Name) and x.func.id in _PURE_CALLS | {"partial", "attrgetter", "itemgetter", "methodcaller"}):
+                return False
+        elif isinstance(x, (ast.NamedExpr, ast.Yield, ast.YieldFrom, ast.Await, ast.ListComp, ast.SetComp, ast.DictComp, ast.GeneratorExp)):
+            return False
+    return True
+
+
+def _unroll_literal_loops(fn) -> int:
+    """`for a, b in ((x1, y1), (x2, y2)): body` over a literal display of at most 8 rows -> the body once per row with the
+    row's expressions substituted for the loop variables.  Only when the body has no break / continue / else, does not
+    assign the loop variables, and does not assign anything the row expressions read (so evaluating a row right before its
+    iteration is the same as evaluating the whole display up front)."""
+    import copy as _copy
+
+    done = 0
+    for blk in _blocks(fn):
+        i = 0
+        while i < len(blk):
+            st = blk[i]
+            ok = isinstance(st, ast.For) and not st.orelse and isinstance(st.iter, (ast.Tuple, ast.List)) and 1 <= len(st.iter.elts) <= 8 and not any(isinstance(e, ast.Starred) for e in st.iter.elts)
+            if ok:
+                tgt = st.target
+                names = [tgt.id] if isinstance(tgt, ast.Name) else ([t.id for t in tgt.elts] if isinstance(tgt, (ast.Tuple, ast.List)) and all(isinstance(t, ast.Name) for t in tgt.elts) else None)
+                ok = names is not None and len(set(names)) == len(names)
+            if ok:
+                rows = []
+                for e in st.iter.elts:
+                    if isinstance(tgt, ast.Name):
+                        rows.append([e])
+                    elif isinstance(e, (ast.Tuple, ast.List)) and len(e.elts) == len(names) and not any(isinstance(x, ast.Starred) for x in e.elts):
+                        rows.append(list(e.elts))
+                    else:
+                        ok = False
+                ok = ok and all(_is_pure_row_expr(x) for r in rows for x in r)
+            if ok:
+                body_nodes = [x for b_ in st.body for x in ast.walk(b_)]
+                if any(isinstance(x, (ast.Break, ast.Continue, ast.FunctionDef, ast.AsyncFunctionDef, ast.Lambda, ast.ClassDef)) for x in body_nodes):
+                    ok = False
+                # loop variables are not re-bound in the body and not used after the loop
+                if ok and any(isinstance(x, ast.Name) and x.id in names and isinstance(x.ctx, (ast.Store, ast.Del)) for x in body_nodes):
+                    ok = False
+                if ok:
+                    after_uses = [x for later in blk[i + 1 :] for x in ast.walk(later) if isinstance(x, ast.Name) and x.id in names and isinstance(x.ctx, ast.Load)]
+                    # (a later re-binding before the use would make this safe; keep it simple)
+                    if after_uses:
+                        ok = False
+                if ok:
+                    rnames, rbases = set(), set()
+                    for r in rows:
+                        for x in r:
+                            a_, b_ = _bases(x)
+                            rnames |= a_
+                            rbases |= b_
+                    if any(_disturbs(b_, rnames, rbases) for b_ in body_nodes if isinstance(b_, ast.stmt)):
+                        ok = False
+            if ok:
+                new = []
+                for r in rows:
+                    sub = dict(zip(names, r))
+
+                    class R(ast.NodeTransformer):
+                        def visit_Name(self, n):
+                            if n.id in sub and isinstance(n.ctx, ast.Load):
+                                return ast.copy_location(_copy.deepcopy(sub[n.id]), n)
+                            return n
+
+                    for b_ in st.body:
+                        new.append(R().visit(_copy.deepcopy(b_)))
+                blk[i : i + 1] = new
+                i += len(new)
+                done += 1
+                continue
+            i += 1
+    return done
+
+
+def _module_tables(tree):
+    """module-level `NAME = {<const>: <expr>, ...}` displays that are assigned once and never written to afterwards"""
+    out = {}
+    counts = {}
+    for st in tree.body:
+        if isinstance(st, ast.Assign) and len(st.targets) == 1 and isinstance(st.targets[0], ast.Name):
+            counts[st.targets[0].id] = counts.get(st.targets[0].id, 0) + 1
+            if isinstance(st.value, ast.Dict) and st.value.keys and all(isinstance(k, ast.Constant) for k in st.value.keys):
+                out[st.targets[0].id] = st.value
+    written = set()
+    for n in ast.walk(tree):
+        if isinstance(n, ast.Subscript) and isinstance(n.ctx, (ast.Store, ast.Del)) and isinstance(n.value, ast.Name):
+            written.add(n.value.id)
+        if isinstance(n, ast.Call) and isinstance(n.func, ast.Attribute) and isinstance(n.func.value, ast.Name) and n.func.attr in _MUTATORS:
+            written.add(n.func.value.id)
+        if isinstance(n, ast.Name) and isinstance(n.ctx, ast.Store) and n.id in out and not any(isinstance(st, ast.Assign) and st.targets[0] is n for st in tree.body):
+            written.add(n.id)
+        if isinstance(n, (ast.Global,)):
+            written.update(n.names)
+    return {k: v for k, v in out.items() if counts.get(k) == 1 and k not in written}
+
+
+class _FoldGetters(ast.NodeTransformer):
+    """`TABLE[<const>]` for a frozen module-level table -> the entry; `attrgetter("a")(x)` -> `x.a`; `itemgetter(k)(x)` -> `x[k]`;
+    `methodcaller("m", ...)(x)` -> `x.m(...)` (what the operator-module helpers compute, written out)"""
+
+    def __init__(self, tables):
+        self.tables = tables
+        self.n = 0
+
+    def visit_Subscript(self, n):
+        self.generic_visit(n)
+        if isinstance(n.ctx, ast.Load) and isinstance(n.value, ast.Name) and n.value.id in self.tables and isinstance(n.slice, ast.Constant):
+            d = self.tables[n.value.id]
+            import copy as _copy
+
+            for k, val in zip(d.keys, d.values):
+                if isinstance(k, ast.Constant) and type(k.value) is type(n.slice.value) and k.value == n.slice.value and _is_pure_row_expr(val) and not any(isinstance(x, ast.Lambda) for x in ast.walk(val)):
+                    self.n += 1
+                    return ast.copy_location(_copy.deepcopy(val), n)
+        return n
+
+    def visit_Call(self, n):
+        self.generic_visit(n)
+        f = n.func
+        if isinstance(f, ast.Call) and isinstance(f.func, (ast.Name, ast.Attribute)) and len(n.args) == 1 and not n.keywords:
+            name = f.func.id if isinstance(f.func, ast.Name) else f.func.attr
+            x = n.args[0]
+            if name == "attrgetter" and len(f.args) == 1 and not f.keywords and isinstance(f.args[0], ast.Constant) and isinstance(f.args[0].value, str) and f.args[0].value.isidentifier():
+                self.n += 1
+                return ast.copy_location(ast.Attribute(value=x, attr=f.args[0].value, ctx=ast.Load()), n)
+            if name == "itemgetter" and len(f.args) == 1 and not f.keywords:
+                self.n += 1
+                return ast.copy_location(ast.Subscript(value=x, slice=f.args[0], ctx=ast.Load()), n)
+            if name == "methodcaller" and f.args and isinstance(f.args[0], ast.Constant) and isinstance(f.args[0].value, str) and f.args[0].value.isidentifier():
+                self.n += 1
+                return ast.copy_location(ast.Call(func=ast.Attribute(value=x, attr=f.args[0].value, ctx=ast.Load()), args=list(f.args[1:]), keywords=list(f.keywords)), n)
+        return n
+
+
 def canonicalise(tree: ast.Module) -> ast.Module:
+    tables = _module_tables(tree)
     for fn in _functions(tree):
+        for _ in range(3):
+            if not _unroll_literal_loops(fn):  # (nested literal loops: the inner one after the outer one was unrolled)
+                break
+        _FoldGetters(tables).visit(fn)
         for _ in range(3):
             if not _lower_match(fn):  # (nested match statements: inner ones appear after the outer one was lowered)
                 break
         _split_parallel(fn)
+        _lbyl(fn)
         # folding one flag can make the next one adjacent to its `if`
         for _ in range(4):
             if not _fold_flags(fn):
